@@ -39,7 +39,9 @@ CLAIMED = {
               "link rule yields exactly the face's window of the undivided domain, that derived tables are reciprocal and "
               "that linked faces see each other symmetrically; real Grid.diff/interp/min/max results on random expressible "
               "decompositions (1x1..3x2, N 2..3, face dim anywhere) are recomputed by the TLA+ trace specification from the "
-              "orientations alone (the link table given to xgcm is re-derived and compared, never used as the oracle)."),
+              "orientations alone (the link table given to xgcm is re-derived and compared, never used as the oracle). Thorough: "
+              "Apalache discharges the link rule, the exchange symmetry and reciprocity for an unknown face size N (every "
+              "decomposition up to 3x3), and TLC checks the typed copy it works on against FaceTopology.tla."),
         ref="4 C03, 3.3", technique="TLA+ spec (FaceTopology) model-checked with TLC + TLC trace validation of real calls on oriented decompositions"),
     "C04": dict(
         text=("Same topology model as C03. Real diff/interp of one C-grid component along its own axis with "
@@ -54,7 +56,9 @@ CLAIMED = {
               "vectors) is model-checked against the global-window semantics on all 2x2 decompositions; every cell of real "
               "xgcm.padding.pad outputs that lies in the halo of at most one axis is recomputed by the TLA+ trace "
               "specification for planar tables and random reciprocal pairings over 2-6 faces covering all 8 link kinds, "
-              "scalar and vector, asymmetric widths 0..min(3,N), every rule on open edges, a third unlinked axis."),
+              "scalar and vector, asymmetric widths 0..min(3,N), every rule on open edges, a third unlinked axis, tables "
+              "inserted in any order with Python or numpy flags, earlier calls on the same Grid. Thorough: the link rule for "
+              "every face size by Apalache (spec/apalache/FaceHaloInd.tla)."),
         ref="4 C05, 3.3", technique="TLA+ spec (FaceTopology: link rule + per-face assembly) + TLC trace validation of real pad calls"),
     "C17": dict(
         text=("TLC enumerates all 625 two-face one-axis tables as a state machine of single-slot edits and shows the "
@@ -82,7 +86,9 @@ CLAIMED = {
     "C06": dict(
         text=("A TLA+ state machine of chunking (every composition of the axis, boundary chunks merged into the end chunks, "
               "overlap of depth = boundary width, block tasks in any order, nothing computed before Compute) is exhausted by "
-              "TLC for depths (1,0),(0,1),(1,1) and refuted, as expected, for depth 2 over a shorter neighbour chunk; real "
+              "TLC for depths (1,0),(0,1),(1,1) and refuted, as expected, for depth 2 over a shorter neighbour chunk; a second "
+              "state machine (DaskDispatch) of the per-axis choice of dask mode / overlap wrapper shows the only error is the "
+              "refusal the property names; real "
               "calls on dask-backed data (all operators incl. metric-aware ones, user ufuncs with and without map_overlap, "
               "face-connected grids chunked over face and extra dims, scalar and vector) over every composition of the "
               "operated dimension are validated by the TLA+ trace specification: zero graph executions while building, a "
